@@ -53,6 +53,12 @@ def run(ctx):
   base = ctx.cls('encoder_decoder:OneHotEncoding')
   subs = iface.check_interface(ctx, base, 'IFACE/one-hot')
   ctx.require(len(subs) >= 6, 'only %d concrete OneHotEncoding subclasses found' % len(subs))
+  # location-independent: an encoding object's tables belong to the object.  A dict / list bound once in the class body and filled in
+  # place through self (a memo of range offsets, say) is shared by every instance: the second encoding with another pitch range or
+  # shift count reads the first one's offsets.
+  from sa import state as _state
+  for c_ in [base] + list(subs):
+    _state.check_instance_state(ctx, c_, 'STATE/per-object', mro=ctx.P.mro(c_)[1:] if hasattr(ctx.P, 'mro') else None)
   from sa import pitfalls
   scope = []
   for c in [base] + list(subs):
